@@ -529,7 +529,7 @@ class C18(C.Check):
                     meta.append(("re.wf_linearised_samples", case))
         timing["samples_s"] = round(time.time() - t0, 1)
         t0 = time.time()
-        bad = C.eval_cases(self.prop, "corr", HEADER, checks, shard=12)
+        bad = L.eval_cases_pid(C, self.prop, HEADER, checks, 12)
         timing["coq_eval_s"] = round(time.time() - t0, 1)
         seen = set()
         for i in bad:
